@@ -40,6 +40,7 @@
 #include <sys/types.h>
 #include <sys/wait.h>
 #include <sys/prctl.h>
+#include <sys/mman.h>
 #include "CppUTest/CppUTestConfig.h"      // pulls the standard headers it wants in before the next line
 #define private public                    // MemoryLeakDetector::outputBuffer_ (see above)
 #include "CppUTest/TestHarness.h"
@@ -70,8 +71,26 @@ static char staticObject[64];
 static char* stackObject;
 static char* heapObject;
 
+// ---- second scenario kind (":E", coq/C06_Edge.v): sizes at the edges.  Four big slots of 18 MiB at model addresses
+// BIGBASE + k * BIGSLOT (mapped on demand in the scenario's own process image; real address == model address modulo the hash prime);
+// the arena hands out a block when the request fits into a slot and refuses (NULL) when it does not.  At free_memory the allocator
+// walks over ALL user bytes of the block and counts the ones that still hold what the program wrote there.
+static const unsigned long long BIGBASE = 0x10000000ULL, BIGSLOT = 0x1200000ULL;
+static const size_t NBIG = 4;
+static bool edgeMode;
+static char* bigArena; static size_t bigStride;
+static char* bigBase[NBIG];
+static size_t bigSize[NBIG];              // user size of the block last placed in the big slot (the harness' own bookkeeping)
+static unsigned char bigFill[NBIG];       // what the program filled it with
+static bool isBigModel(unsigned long long a) { return a >= BIGBASE && a < BIGBASE + NBIG * BIGSLOT; }
+static bool inBig(const char* p) { return bigArena && p >= bigArena && p < bigArena + NBIG * bigStride; }
+
 static char* real_of(unsigned long long a)
 {
+    if (edgeMode) {
+        if (!isBigModel(a)) { fprintf(stderr, "harness: address %llx outside the big arena\n", a); exit(3); }
+        return bigBase[(a - BIGBASE) / BIGSLOT] + (a - BIGBASE) % BIGSLOT;
+    }
     if (a >= NSLOTS * SLOT) {
         unsigned long long k = a - NSLOTS * SLOT;
         if (k == 0) return stackObject;
@@ -95,6 +114,7 @@ struct Event { unsigned long long addr; size_t n; };
 static const int MAXEV = 8;
 static Event events[MAXEV]; static int nevents;
 static unsigned char evbytes[MAXEV][MAXSIZE + 8];
+static unsigned long long evSurviving[MAXEV], evFirst[MAXEV];
 static char* nextBlock;                   // where the next block allocation has to go
 static char* nextRealloc;                 // where the next platform realloc has to go
 
@@ -104,11 +124,25 @@ public:
     ArenaAllocator(const char* n, const char* a, const char* f) : TestMemoryAllocator(n, a, f) {}
     char* alloc_memory(size_t size, const char*, size_t) override
     {
+        if (nextBlock && edgeMode) { char* p = nextBlock; nextBlock = nullptr; return size <= BIGSLOT ? p : nullptr; }
         if (nextBlock) { char* p = nextBlock; nextBlock = nullptr; if (size > SLOT) { fprintf(stderr, "harness: request of %lu bytes\n", (unsigned long)size); exit(3); } return p; }
         return (char*)malloc(size);       // bookkeeping of the library (leak records, accounting nodes)
     }
     void free_memory(char* memory, size_t, const char*, size_t) override
     {
+        if (inBig(memory)) {
+            size_t k = (size_t)(memory - bigArena) / bigStride;
+            if (memory != bigBase[k]) return;                     // the inline leak record of a block (see below)
+            if (nevents < MAXEV) {
+                Event& e = events[nevents];
+                e.addr = BIGBASE + k * BIGSLOT; e.n = bigSize[k];
+                unsigned long long left = 0, first = 0; const unsigned char fill = bigFill[k];
+                for (size_t i = 0; i < e.n; i++) if ((unsigned char)memory[i] == fill) { if (!left) first = i; left++; }
+                evSurviving[nevents] = left; evFirst[nevents] = first;
+                nevents++;
+            }
+            return;
+        }
         if (!inArena(memory)) { free(memory); return; }
         // a block comes back: remember the user bytes it holds now.  (A pointer into the middle of a slot is the inline leak record
         // of a block that was allocated with operator new and released through free/realloc: not a block, not recorded.)
@@ -123,6 +157,13 @@ public:
 };
 static void* arena_realloc(void* mem, size_t size)
 {
+    if (edgeMode) {
+        if (!nextRealloc) { fprintf(stderr, "harness: platform realloc without an address\n"); exit(3); }
+        char* p = nextRealloc; nextRealloc = nullptr;
+        if (size > BIGSLOT) return nullptr;                   // no block of that size
+        if (mem && mem != p) memmove(p, mem, size);
+        return p;
+    }
     if (!nextRealloc || size > SLOT) { fprintf(stderr, "harness: platform realloc of %lu bytes / no address\n", (unsigned long)size); exit(3); }
     char* p = nextRealloc; nextRealloc = nullptr;
     if (mem && mem != p) memmove(p, mem, size);
@@ -248,6 +289,33 @@ static void releaseThrough(int form, char* p, size_t sizeHint)
     }
 }
 
+static void parseEdgeOps(Toks& t, std::vector<Op>& ops)
+{
+    while (!t.end()) {
+        std::string op = t.sym();
+        Op o; o.kind = K_WRITE; o.e = 0; o.form = 0; o.al = 0; o.isNull = false; o.addr = o.na = 0; o.n = 0; o.k = 0;
+        if (op == "A") {
+            o.kind = K_ALLOC;
+            int c = t.n(); if (c < 0 || c > 10) { fprintf(stderr, "harness: bad allocating form\n"); exit(3); }
+            o.form = c; o.e = AFORM_FAMILY[c];
+            o.al = t.u(); o.addr = t.u(); o.n = t.u();
+            if (!isBigModel(o.addr) || (o.addr - BIGBASE) % BIGSLOT) { fprintf(stderr, "harness: bad allocation address\n"); exit(3); }
+        }
+        else if (op == "F" || op == "r") {
+            o.kind = op == "r" ? K_REALLOC : K_FREE;
+            if (op == "r") o.e = 2;
+            else { int c = t.n(); if (c < 0 || c > 11) { fprintf(stderr, "harness: bad releasing form\n"); exit(3); } o.form = c; o.e = RFORM_FAMILY[c]; }
+            o.al = t.u();
+            std::string ps = t.next();
+            o.isNull = ps == "~"; if (!o.isNull) { o.addr = strtoull(ps.c_str(), nullptr, 16); if (!isBigModel(o.addr)) { fprintf(stderr, "harness: bad address\n"); exit(3); } }
+            if (op == "r") { o.na = t.u(); o.n = t.u(); if (!isBigModel(o.na) || (o.na - BIGBASE) % BIGSLOT) { fprintf(stderr, "harness: bad realloc address\n"); exit(3); } }
+        }
+        else if (op == "t") { o.kind = K_TC; o.k = t.u() != 0; }
+        else { fprintf(stderr, "harness: bad edge op %s\n", op.c_str()); exit(3); }
+        ops.push_back(o);
+    }
+}
+
 static void parseOps(Toks& t, std::vector<Op>& ops)
 {
     while (!t.end()) {
@@ -291,6 +359,18 @@ static void parseOps(Toks& t, std::vector<Op>& ops)
 
 static void runScenario(Toks& t)
 {
+    edgeMode = t.peek() == ":E";
+    if (edgeMode) {
+        t.next();
+        bigStride = (size_t)((BIGSLOT + 8 * HP + 4095) & ~4095ULL);
+        bigArena = (char*)mmap(nullptr, (NBIG + 1) * bigStride, PROT_READ | PROT_WRITE, MAP_PRIVATE | MAP_ANONYMOUS | MAP_NORESERVE, -1, 0);
+        if (bigArena == (char*)MAP_FAILED) { perror("harness: mmap"); exit(3); }
+        for (size_t k = 0; k < NBIG; k++) {
+            bigBase[k] = nullptr; bigSize[k] = 0; bigFill[k] = 0;
+            for (size_t j = 0; j < HP; j++) if (((uintptr_t)(bigArena + k * bigStride + 8 * j)) % HP == (BIGBASE + k * BIGSLOT) % HP) { bigBase[k] = bigArena + k * bigStride + 8 * j; break; }
+            if (!bigBase[k]) { fprintf(stderr, "harness: no offset\n"); exit(3); }
+        }
+    }
     jumpMode = t.u() != 0;
     MemoryAccountant* accountant = new MemoryAccountant;
     std::vector<std::string*> names;
@@ -310,7 +390,7 @@ static void runScenario(Toks& t)
         else { fprintf(stderr, "harness: bad descriptor %s\n", k.c_str()); exit(3); }
     }
     std::vector<Op> ops;
-    parseOps(t, ops);
+    if (edgeMode) parseEdgeOps(t, ops); else parseOps(t, ops);
     TestMemoryAllocator* hiddenNew = new ArenaAllocator("Standard New Allocator", "new", "delete");
     TestMemoryAllocator* hiddenArr = new ArenaAllocator("Standard New [] Allocator", "new []", "delete []");
     TestMemoryAllocator* hiddenMal = new ArenaAllocator("Standard Malloc Allocator", "malloc", "free");
@@ -325,7 +405,24 @@ static void runScenario(Toks& t)
     MemoryLeakWarningPlugin::setGlobalDetector(det, &rep);
     for (size_t oi = 0; oi < ops.size(); oi++) {
         const Op& o = ops[oi];
-        if (o.kind == K_ALLOC) {
+        if (o.kind == K_ALLOC && edgeMode) {
+            // a request of any size_t: a block at the address the scenario names, or nothing (NULL / std::bad_alloc)
+            select(o.e, o.al);
+            det->outputBuffer_.clear(); rep.calls = 0; rep.cat = 0; nevents = 0;
+            nextBlock = real_of(o.addr);
+            char* p = nullptr;
+            try { p = (char*)allocateThrough(o.form, o.n); } catch (const std::bad_alloc&) { p = nullptr; }
+            nextBlock = nullptr; lockDepth = 0;
+            if (p) {
+                if (p != real_of(o.addr)) { fprintf(stderr, "harness: the allocation came back at another address\n"); exit(3); }
+                size_t k = (size_t)((o.addr - BIGBASE) / BIGSLOT);
+                bigSize[k] = o.n; bigFill[k] = 0xA5;
+                memset(p, 0xA5, o.n);                            // the user program fills its block, all of it
+            }
+            outTok("|"); outHex((unsigned long long)rep.calls); outHex((unsigned long long)rep.cat); outHex(0);
+            outHex(det->totalMemoryLeaks(mem_leak_period_all)); outTok(p ? "1" : "0");
+        }
+        else if (o.kind == K_ALLOC) {
             select(o.e, o.al);
             nextBlock = real_of(o.addr);
             char* p;
@@ -344,7 +441,8 @@ static void runScenario(Toks& t)
             det->outputBuffer_.clear();                          // the report text starts at the category line; period untouched
             rep.calls = 0; rep.cat = 0; nevents = 0;
             char* volatile q = nullptr;
-            size_t hint = (!o.isNull && o.addr < NSLOTS * SLOT) ? blockSize[o.addr / SLOT] : 0;
+            size_t hint = edgeMode ? ((!o.isNull && (o.addr - BIGBASE) % BIGSLOT == 0) ? bigSize[(o.addr - BIGBASE) / BIGSLOT] : 0)
+                                   : (!o.isNull && o.addr < NSLOTS * SLOT) ? blockSize[o.addr / SLOT] : 0;
             if (isRealloc) { nextRealloc = real_of(o.na); PlatformSpecificRealloc = arena_realloc; }
             armed = true;
             if (setjmp(opJmp) == 0) {
@@ -357,11 +455,16 @@ static void runScenario(Toks& t)
             PlatformSpecificRealloc = savedRealloc; nextRealloc = nullptr;
             if (isRealloc && q) {
                 if (q != real_of(o.na)) { fprintf(stderr, "harness: realloc came back at another address\n"); exit(3); }
-                blockSize[o.na / SLOT] = o.n;
+                if (edgeMode) { size_t k = (size_t)((o.na - BIGBASE) / BIGSLOT); bigSize[k] = o.n; bigFill[k] = 0x5A; }
+                else blockSize[o.na / SLOT] = o.n;
                 memset(q, 0x5A, o.n);
             }
             outTok("|"); outHex((unsigned long long)rep.calls); outHex((unsigned long long)rep.cat); outHex((unsigned long long)nevents);
-            for (int i = 0; i < nevents; i++) { outHex(events[i].addr); if (o.e >= 3) outTok("~"); else outBytes(evbytes[i], events[i].n); }
+            for (int i = 0; i < nevents; i++) {
+                outHex(events[i].addr);
+                if (edgeMode) { outHex(evSurviving[i]); outHex(evFirst[i]); }
+                else if (o.e >= 3) outTok("~"); else outBytes(evbytes[i], events[i].n);
+            }
             outHex(det->totalMemoryLeaks(mem_leak_period_all)); outTok(q ? "1" : "0");
         }
         else if (o.kind == K_WRITE) memcpy(real_of(o.addr), o.bytes.data(), o.bytes.size());
